@@ -46,6 +46,12 @@ func main() {
 			usage()
 		}
 		os.Exit(cmdCheck(repo, os.Args[2], os.Args[3]))
+	case "selftest":
+		only := ""
+		if len(os.Args) > 2 {
+			only = os.Args[2]
+		}
+		os.Exit(cmdSelftest(repo, only))
 	case "replay":
 		if len(os.Args) < 3 {
 			usage()
@@ -293,7 +299,11 @@ func cmdCheck(repo, prop, tier string) int {
 			return 2
 		}
 	}
+	scratch := os.Getenv("GOVC_SCRATCH") != ""
 	work := filepath.Join(verifDir, ".work", "smt", prop+"_"+tier)
+	if scratch {
+		work = filepath.Join(repo, ".govc", "smt", prop)
+	}
 	_ = os.RemoveAll(work)
 	tSolve := time.Now()
 	solveAll(sel, work, tier, seed)
@@ -364,6 +374,9 @@ func cmdCheck(repo, prop, tier string) int {
 		}
 	}
 	replayDir := filepath.Join(verifDir, "replays", prop)
+	if scratch {
+		replayDir = filepath.Join(repo, ".govc", "replays", prop)
+	}
 	for _, ob := range violations {
 		path, confirmed := writeReplay(rd, ob, prop, replayDir)
 		line := fmt.Sprintf("VIOLATION property=%s replay=%s obligation=%s", prop, path, ob.Name)
@@ -372,7 +385,9 @@ func cmdCheck(repo, prop, tier string) int {
 		}
 		fmt.Println(line)
 	}
-	writeEvidence(rd, prop, tier, seed, sel, discharged, known, violations, unitsUsed, time.Since(t0).Seconds(), solveSecs, coversTotal, coversReached)
+	if !scratch {
+		writeEvidence(rd, prop, tier, seed, sel, discharged, known, violations, unitsUsed, time.Since(t0).Seconds(), solveSecs, coversTotal, coversReached)
+	}
 	fmt.Printf("%s %s: %d obligations, %d discharged, %d known findings, %d violations (%.1fs)\n", prop, tier, len(sel), len(discharged), len(known), len(violations), time.Since(t0).Seconds())
 	if len(violations) > 0 {
 		return 1
